@@ -467,7 +467,22 @@ func TestVerifC08Child(t *testing.T) {
 			var rc fasthttp.RequestCtx
 			var rq fasthttp.Request
 			rq.Header.SetMethod(c.HTTP)
-			path := strings.Replace(c.Path, "K", []string{fmt.Sprint(w.slot), w.sig, "zzz", ""}[rng.Intn(4)], 1)
+			// K = an archived key of the endpoint's kind, A = an absent one, G = garbage, "long" = a very long argument
+			key, absent := fmt.Sprint(w.slot), "123456789"
+			if strings.Contains(c.Path, "sig-to-cid") {
+				key, absent = w.sig, fixture.Sig(99, 7).String()
+			}
+			path := c.Path
+			switch {
+			case strings.HasSuffix(path, "long"):
+				path = strings.TrimSuffix(path, "long") + strings.Repeat("9", 5000)
+			case strings.Contains(path, "/K"):
+				path = strings.Replace(path, "/K", "/"+key, 1)
+			case strings.HasSuffix(path, "/A"):
+				path = strings.TrimSuffix(path, "A") + absent
+			case strings.HasSuffix(path, "/G"):
+				path = strings.TrimSuffix(path, "G") + []string{"zzz", "-1", "1e9", "0x10", " ", "%00"}[rng.Intn(6)]
+			}
 			rq.SetRequestURI(path)
 			if c.HTTP != "GET" || c.Body == "object" {
 				rq.SetBodyString(w.jsonBody(&c, rng))
